@@ -6,9 +6,19 @@ Tie     (T) translator: declaration order of dependency/output variants and fiel
         (B) correspondence: the same construction / export / import commands go to the freshly built `xvc`
         binary in scratch repositories and to the model driver `pipedata schema`; command verdicts, the
         canonicalised text of every `xvc pipeline export`, and `xvc pipeline list` are diffed.
+        (R) reader: cmd_import's input handling is re-read from import.rs (lib/c14_strings.extract_reader) and selects the
+        reader of `Reader.lean`; generated document texts (YAML with literal block scalars / JSON; clean, CRLF, without
+        final newline, with a line that is not UTF-8) go to `pipedata reader` and to the real `xvc pipeline import`
+        (--file and stdin); what was imported must be the value the text was emitted from when the model hands the
+        clean text to the parser, and otherwise what `import --file` makes of the model's string.
+        (D) documents: `export(import(V)) = V` modulo name and list order for generated documents V (C14_import_export).
 Oracle  independent of the model, on the real command output only: second export identical to the first
-        except for the name (json and yaml, raw text), every other pipeline's export unchanged, import over an
-        existing name refused without --overwrite with everything unchanged, accepted with it.
+        except for the name (json and yaml, raw text), every other pipeline's export unchanged (the source pipeline
+        included), import over an existing name refused without --overwrite with everything unchanged, accepted with it.
+        Channels: export --file -> import --file | stdin, and export to stdout piped into import.
+Strings every string-valued field (step name, command, generic command, sqlite query, regex, parameter key and value,
+        paths, recorded lines, map keys, url headers) is drawn from the structured generator of lib/c14_strings.py; what
+        the command line cannot carry is injected by importing a generated JSON document first.
 """
 import hashlib, json, os, re, sqlite3, time
 from common import Check, run_lines, shrink, REPO, VERIF
@@ -858,6 +868,7 @@ def _doc_leaves(doc):
     out = [('workdir',)] if doc.get('workdir') else []
     for i, s_ in enumerate(doc['steps']):
         out.append(('steps', i, 'command'))
+        out.append(('steps', i, 'name'))
         for j, d in enumerate(s_['dependencies']):
             (v, b), = d.items()
             for f, x in b.items():
@@ -920,6 +931,9 @@ def doc_candidates(sc):
             if len(l) > 1:
                 cands.append('\n'.join(ls[:ls_i] + ['y'] + ls[ls_i + 1:]))
         seen = set()
+        if path[-1] == 'name' and len(path) == 3:
+            others = {s_['name'] for k_, s_ in enumerate(doc['steps']) if k_ != path[1]}
+            cands = [c for c in cands if c != '' and c not in others]
         for c in cands:
             if c != x and c not in seen and (path[-1] != 'path' or cs.path_ok(c)):
                 seen.add(c)
@@ -1294,7 +1308,7 @@ def run(chk: Check):
         chk.proof['broken'].append({'stage': 'translator', 'errors': [str(e)]})
         rinfo = {'file': 'file', 'stdin': 'stdin', 'read': {}}
     chk.extra['reader'] = rinfo
-    nstatic, nrun, ncli, nlines, ndoc, nreader = (32, 20, 24, 8, 28, 24) if quick else (300, 160, 160, 50, 200, 160)
+    nstatic, nrun, ncli, nlines, ndoc, nreader = (32, 20, 24, 8, 28, 24) if quick else (300, 160, 120, 40, 160, 120)
     chk.extra['rule'] = (f'corpus (seeded C14-1 minimised: blank line in a step / generic command; blank lines at the ends; a document with blank lines in every '
                          f'string field; stdout-keep-scalar; non-finite TOML) first; then {nstatic} generated repositories that are never run (1-3 pipelines incl. `default`, '
                          '0-4 steps each, names/commands/paths from pools with quotes, newlines, CR, tabs, non-ASCII, YAML-significant tokens; all 11 offline dependency '
